@@ -1,4 +1,5 @@
 import OntVerif.Proofs.BlockPool
+import OntVerif.Gen.VbftIntake
 /-!
 # C31 — Commit is declared only with a verifiable two-thirds signer quorum
 
@@ -135,6 +136,20 @@ theorem C31_done_depends_on_map_order_with_sentinel :
     let c := run .asShipped 4 {} [eN 0 1, eN 0 maxU32, eN 1 1, eN 1 maxU32, eN 2 maxU32, eN 2 1, eN 3 maxU32]
     commitDone .asShipped 4 1 [0, 1, 2, 3] c [0, 1, 2, 3] 1 = (maxU32, false, false) ∧
     commitDone .asShipped 4 1 [0, 1, 2, 3] c [2, 0, 1, 3] 1 = (1, false, true) := by decide
+
+/-! ### The intake gate of `service.go` (structural fact, regenerated by factgen on every run: `Gen/VbftIntake.lean`)
+
+The model's `deliver` assumes that EVERY consensus message passes `msg.Verify(sender key)` before it reaches
+`onConsensusMsg` / the msg pool (from where `startNewRound` and the fast-forward loop load parked messages of later rounds
+into the block pool without verifying again). -/
+/-- in the per-peer receive loop the deserialised message is verified under no condition on the message itself (only
+"deserialised" and "sender key known"), and every hand-over of it (`onConsensusMsg`, any other call taking it, any channel
+send) is dominated by the passed verification — no hand-over path without `Verify` -/
+theorem C31_intake_verified :
+    OntVerif.Gen.VbftIntake.intakeUnderstood = true ∧ 1 ≤ OntVerif.Gen.VbftIntake.verifyCalls ∧
+    OntVerif.Gen.VbftIntake.verifyGuards.all (fun g => g == "deserialize-ok" || g == "key-known") = true ∧
+    1 ≤ OntVerif.Gen.VbftIntake.handovers.length ∧
+    OntVerif.Gen.VbftIntake.handovers.all (fun h => h.2.2) = true := by decide
 
 /-! ### Non-vacuity -/
 
